@@ -74,7 +74,7 @@ Progress ==
     /\ (Consistent => TLCSet(tid, IF Len(hist) > TLCGet(tid) THEN Len(hist) ELSE TLCGet(tid)))
     /\ ((Consistent /\ Complete) =>
             /\ TLCSet(10000 + tid, TRUE)
-            /\ PrintT(<<"accepted", tid, hist>>))
+            /\ PrintT(<<"acceptedj", ToJson([tid |-> tid, hist |-> hist])>>))
 
 Post == PrintT(<<"verdict", [i \in 1..Len(Traces) |-> <<TLCGet(i), TLCGet(10000 + i)>>]>>)
 =============================================================================
